@@ -339,7 +339,12 @@ func notFromServer(p *refcodec.Packet) string {
 	default:
 		return "packet type a client sends"
 	}
-	if !refcodec.WellFormed(p) {
+	// (a remaining length written in more bytes than necessary is not held against the
+	// broker: it forwards a publish it accepted in that form byte for byte, and no property
+	// says otherwise)
+	q := *p
+	q.NonMinimalLength = false
+	if !refcodec.WellFormed(&q) {
 		return "malformed"
 	}
 	return ""
